@@ -10,6 +10,7 @@ pub struct Canon {
     pub known: Vec<Uuid>,
     /// long payloads: content -> token string
     pub tokens: HashMap<Vec<u8>, String>,
+    pub chunk_tokens: HashMap<Vec<u8>, String>,
     next_token: u64,
 }
 
@@ -51,18 +52,27 @@ impl Canon {
         if let Some(t) = self.tokens.get(d) {
             return t.clone();
         }
-        self.next_token += 1;
-        let t = format!("{}", 1000 + self.next_token);
+        let t = self.chunk_token(d);
         self.tokens.insert(d.to_vec(), t.clone());
         t
     }
     /// register a body that was uploaded in chunks: the model sees one token per chunk
     pub fn register_chunked(&mut self, whole: &[u8], chunk_tokens: &[String]) {
-        self.tokens.insert(whole.to_vec(), chunk_tokens.join(","));
+        // the first registration of a content wins (what the model stored first)
+        self.tokens.entry(whole.to_vec()).or_insert_with(|| chunk_tokens.join(","));
     }
     pub fn fresh_token(&mut self) -> String {
         self.next_token += 1;
         format!("{}", 1000 + self.next_token)
+    }
+    /// one token per distinct chunk content (so identical uploads get identical tokens)
+    pub fn chunk_token(&mut self, chunk: &[u8]) -> String {
+        if let Some(t) = self.chunk_tokens.get(chunk) {
+            return t.clone();
+        }
+        let t = self.fresh_token();
+        self.chunk_tokens.insert(chunk.to_vec(), t.clone());
+        t
     }
 }
 
